@@ -257,13 +257,19 @@ struct PFOptions {
     double case_timeout_s = 5;   // watchdog per case; re-run alone with 20x before a hang verdict
     std::string sub = "enum";    // sub-check id used for crash/hang violations
     bool isolate = true;         // fork workers (false: run in-process, for replay)
+    // optional: describe / replay a crash using the sub-position the body marked with pf_mark()
+    std::function<std::string(int64_t, int64_t)> describe_sub, replay_sub;
+    std::function<JFields(int64_t, int64_t)> tags_sub;
 };
 struct PFSlot {
     volatile int64_t cur;        // index being executed (-1: none)
     volatile double started;     // when
     volatile int64_t done;       // cases completed by this worker (all incarnations)
     volatile int64_t stopped_at; // first index NOT processed because of the deadline (-1: none)
+    volatile int64_t sub;        // optional finer position inside the case (set by the body through g_slot)
 };
+static PFSlot* g_slot = NULL;    // slot of the current worker (NULL outside parallel_for children)
+inline void pf_mark(int64_t sub) { if (g_slot) g_slot->sub = sub; }
 
 // body(i) executes case i (emitting violations itself); describe(i) renders the case for crash
 // reports; replay_of(i) gives the replay args.  Returns true iff every index was executed.
@@ -294,6 +300,7 @@ inline bool parallel_for(Run& run, int64_t n, const std::function<void(int64_t)>
         if (p < 0) { perror("fork"); exit(2); }
         if (p == 0) {
             prctl(PR_SET_PDEATHSIG, SIGKILL);  // never outlive the harness (hard timeouts, crashes of the parent)
+            g_slot = &slots[k];
             int efd = open(errfile(k).c_str(), O_WRONLY | O_CREAT | O_TRUNC, 0644);
             if (efd >= 0) { dup2(efd, 2); close(efd); }
             run.counters.clear();
@@ -302,6 +309,7 @@ inline bool parallel_for(Run& run, int64_t n, const std::function<void(int64_t)>
             for (int64_t i = from; i < n; i += W) {
                 if (run.time_left() <= 0) { slots[k].stopped_at = i; break; }
                 slots[k].started = now();
+                slots[k].sub = -1;
                 slots[k].cur = i;
                 body(i);
                 slots[k].cur = -1;
@@ -381,8 +389,11 @@ inline bool parallel_for(Run& run, int64_t n, const std::function<void(int64_t)>
                 }
                 std::string err = read_err(k);
                 std::string cls = crash_class(err, status);
-                run.violation(opt.sub, "crash:" + cls, {{"crash", jstr(cls)}}, describe(cur), err,
-                              replay_of(cur));
+                int64_t sp = slots[k].sub;
+                JFields ctags = {{"crash", jstr(cls)}};
+                if (sp >= 0 && opt.tags_sub) for (auto& t : opt.tags_sub(cur, sp)) ctags.push_back(t);
+                run.violation(opt.sub, "crash:" + cls, ctags, (sp >= 0 && opt.describe_sub) ? opt.describe_sub(cur, sp) : describe(cur), err,
+                              (sp >= 0 && opt.replay_sub) ? opt.replay_sub(cur, sp) : replay_of(cur));
                 solo[k] = -1;
                 if (cur + W < n) spawn(k, cur + W, -1, 1);
                 else { finished[k] = true; live--; }
@@ -507,6 +518,7 @@ BfsResult bfs(Run& run, Sys& sys, const std::string& sub, int max_depth, double 
             const Node& nd = frontier[i];
             std::string out;
             for (int op = 0; op < nops; op++) {
+                pf_mark(op);
                 typename Sys::Obj* o = sys.make();
                 std::vector<int> pre;
                 for (int h : nd.hist) { sys.apply(*o, h, pre, false); pre.push_back(h); }
@@ -535,6 +547,13 @@ BfsResult bfs(Run& run, Sys& sys, const std::string& sub, int max_depth, double 
         PFOptions opt;
         opt.sub = sub;
         opt.case_timeout_s = case_timeout_s;
+        opt.describe_sub = [&](int64_t i, int64_t op) {
+            std::vector<int> h = frontier[i].hist;
+            h.push_back((int)op);
+            return jobj({{"history", describe_hist(sys, h)}, {"note", jstr("crashed while executing the last operation (or while replaying the history before it)")}});
+        };
+        opt.replay_sub = [&](int64_t i, int64_t op) { std::vector<int> h = frontier[i].hist; h.push_back((int)op); return "sub=" + sub + " hist=" + hist_str(h); };
+        opt.tags_sub = [&](int64_t, int64_t op) { return JFields{{"op", jstr(sys.op_name((int)op))}}; };
         bool ok = parallel_for(run, ncase, body, describe, replay_of, opt);
         close(rfd);
         // merge deterministically: order by (frontier index, op)
